@@ -3,6 +3,7 @@ package main
 // Term IR shared by both integer encodings (Int with explicit wrap-around, and bit-vectors).
 
 import (
+	"os"
 	"fmt"
 	"math"
 	"math/big"
@@ -869,21 +870,25 @@ type errInexpressible struct{ why string }
 func (e errInexpressible) Error() string { return "inexpressible: " + e.why }
 
 type smtPrinter struct {
-	mode    Mode
-	decls   []string
-	declSet map[string]bool
-	defs    []string // define-fun for shared nodes
-	names   map[*Term]string
-	refs    map[*Term]int
-	hasBV   bool // int-mode with int2bv bridges
-	sorts   map[string]bool
-	wraps   map[string]bool
-	funs    map[string]bool
-	nq      int
-	relaxed bool
-	side    []string           // side conditions of the relaxed float model (no overflow, no division by zero): proved with the goal
-	opSide  map[*Term][]string // per float operation
-	nfp     int
+	mode                Mode
+	decls               []string
+	declSet             map[string]bool
+	defs                []string // define-fun for shared nodes
+	names               map[*Term]string
+	refs                map[*Term]int
+	hasBV               bool // int-mode with int2bv bridges
+	sorts               map[string]bool
+	wraps               map[string]bool
+	funs                map[string]bool
+	nq                  int
+	relaxed             bool
+	fpVars              []string        // free float variables declared
+	finite              map[string]bool // those bounded on both sides by a hypothesis
+	qbound              map[string]bool
+	unbUses, unbCmpUses map[string]int     // occurrences of possibly non-finite free float variables: all / as direct comparison operands
+	side                []string           // side conditions of the relaxed float model (no overflow, no division by zero): proved with the goal
+	opSide              map[*Term][]string // per float operation
+	nfp                 int
 }
 
 func newSmtPrinter(mode Mode) *smtPrinter {
@@ -1068,6 +1073,9 @@ func (p *smtPrinter) declVar(t *Term) string {
 	if !p.declSet[t.Name] {
 		p.declSet[t.Name] = true
 		p.decls = append(p.decls, fmt.Sprintf("(declare-fun %s () %s)", n, p.sort(t.Sort)))
+		if t.Sort.K == SFP {
+			p.fpVars = append(p.fpVars, t.Name)
+		}
 		if p.mode == ModeInt && t.Sort.K == SGoInt {
 			p.decls = append(p.decls, fmt.Sprintf("(assert (and (<= %s %s) (<= %s %s)))", intLit(t.Sort.lo()), n, n, intLit(t.Sort.hi())))
 		}
@@ -1122,6 +1130,9 @@ func (p *smtPrinter) pr1(t *Term, bound map[string]bool, bc map[*Term]bool) stri
 	case "var":
 		if bound[t.Name] {
 			return smtName(t.Name)
+		}
+		if p.relaxed && t.Sort.K == SFP && p.unbUses != nil && !p.finite[t.Name] {
+			p.unbUses[t.Name]++
 		}
 		return p.declVar(t)
 	case "not", "and", "or", "=>", "ite", "=", "distinct":
@@ -1294,13 +1305,35 @@ func (p *smtPrinter) prRelaxed(t *Term, rec func(*Term) string) string {
 		p.addSide(t, fmt.Sprintf("(<= (fpabs %s) %s)", ev, maxf))
 		return r
 	}
+	unb := func(i int) string { // v!nan for a possibly non-finite free variable used as a direct operand, else ""
+		x := t.Args[i]
+		if x.Op == "var" && x.Sort.K == SFP && p.unbUses != nil && !p.finite[x.Name] && !p.qbound[x.Name] {
+			p.unbCmpUses[x.Name]++
+			n := smtName(x.Name + "!nan")
+			if !p.declSet[x.Name+"!nan"] {
+				p.declSet[x.Name+"!nan"] = true
+				p.decls = append(p.decls, fmt.Sprintf("(declare-fun %s () Bool)", n))
+			}
+			return n
+		}
+		return ""
+	}
+	cmp := func(op string) string {
+		c := "(" + op + " " + a(0) + " " + a(1) + ")"
+		for i := 0; i < 2; i++ {
+			if n := unb(i); n != "" {
+				c = "(and (not " + n + ") " + c + ")"
+			}
+		}
+		return c
+	}
 	switch t.Op {
 	case "feq":
-		return "(= " + a(0) + " " + a(1) + ")"
+		return cmp("=")
 	case "flt":
-		return "(< " + a(0) + " " + a(1) + ")"
+		return cmp("<")
 	case "fle":
-		return "(<= " + a(0) + " " + a(1) + ")"
+		return cmp("<=")
 	case "fadd":
 		return round("(+ " + a(0) + " " + a(1) + ")")
 	case "fsub":
@@ -1325,7 +1358,16 @@ func (p *smtPrinter) prRelaxed(t *Term, rec func(*Term) string) string {
 		p.defs = append(p.defs, fmt.Sprintf("(declare-fun %s () Real)", r),
 			fmt.Sprintf("(assert (and (>= %s 0.0) (<= (* %s %s) (* %s (+ 1.0 (/ 1.0 2251799813685248.0)))) (>= (* %s %s) (* %s (- 1.0 (/ 1.0 2251799813685248.0))))))", r, r, r, e, r, r, e))
 		return r
-	case "fisnan", "fisinf":
+	case "fisnan":
+		if n := unb(0); n != "" {
+			a(0)
+			return n
+		}
+		return "false"
+	case "fisinf":
+		if x := t.Args[0]; x.Op == "var" {
+			a(0) // a possibly infinite free variable: counted as a use outside a comparison
+		}
 		return "false"
 	case "i2f":
 		x := "(to_real " + a(0) + ")"
@@ -1814,6 +1856,9 @@ func buildScript(mode Mode, facts []*Term, goal *Term, values []*Term, forCVC5 b
 		bc := map[*Term]bool{}
 		goalIdx := -1
 		var printed []*Term
+		p.finite = finiteFloatVars(facts)
+		p.qbound = bound
+		p.unbUses, p.unbCmpUses = map[string]int{}, map[string]int{}
 		for i, f := range all {
 			if f.isTrue() {
 				continue
@@ -1827,6 +1872,21 @@ func buildScript(mode Mode, facts []*Term, goal *Term, values []*Term, forCVC5 b
 		var vals []string
 		for _, v := range values {
 			vals = append(vals, p.pr(v, bound, bc))
+		}
+		if p.relaxed {
+			// The relaxed encoding reads a float as a real number: it has no NaN and no infinity. A free float variable
+			// that no hypothesis bounds on both sides may be NaN: it gets a Boolean v!nan, may occur only as a direct
+			// operand of a comparison (false when v!nan; an infinity compares like a real beyond every constant), and
+			// any other occurrence makes the relaxed encoding inadmissible (the IEEE-754 encoding decides the goal then).
+			// Without this, !(w <= 3) would wrongly yield w > 3 for a NaN w.
+			for _, n := range p.fpVars {
+				if !bound[n] && !p.finite[n] && p.unbUses[n] != p.unbCmpUses[n] {
+					if os.Getenv("GOVC_DEBUG_FP") != "" {
+						fmt.Fprintln(os.Stderr, "relaxed refused:", n, p.unbUses[n], p.unbCmpUses[n])
+					}
+					panic(errInexpressible{"float variable " + n + " not bounded by the hypotheses (may be NaN or infinite) and used outside a comparison: relaxed encoding not admissible"})
+				}
+			}
 		}
 		for k := range asserts {
 			body := asserts[k]
@@ -1978,4 +2038,77 @@ func hasBoolOp(t *Term) bool {
 		return false
 	}
 	return rec(t)
+}
+
+// finiteFloatVars returns the float variables that the top-level conjuncts of the facts bound from below and from above
+// by finite constants (or equate with one).
+func finiteFloatVars(facts []*Term) map[string]bool {
+	lo, hi := map[string]bool{}, map[string]bool{}
+	isC := func(t *Term) bool {
+		return t.Op == "const" && t.Sort.K == SFP && !math.IsNaN(t.F) && !math.IsInf(t.F, 0)
+	}
+	isV := func(t *Term) bool { return t.Op == "var" && t.Sort.K == SFP }
+	var walk func(t *Term)
+	walk = func(t *Term) {
+		switch t.Op {
+		case "and":
+			for _, a := range t.Args {
+				walk(a)
+			}
+		case "fle", "flt":
+			if isC(t.Args[0]) && isV(t.Args[1]) {
+				lo[t.Args[1].Name] = true
+			}
+			if isV(t.Args[0]) && isC(t.Args[1]) {
+				hi[t.Args[0].Name] = true
+			}
+		case "feq":
+			for i := 0; i < 2; i++ {
+				if isV(t.Args[i]) && isC(t.Args[1-i]) {
+					lo[t.Args[i].Name], hi[t.Args[i].Name] = true, true
+				}
+			}
+		}
+	}
+	for _, f := range facts {
+		walk(f)
+	}
+	out := map[string]bool{}
+	for n := range lo {
+		if hi[n] {
+			out[n] = true
+		}
+	}
+	// A variable that names the result of a float computation (its definition is a fact of the path: Duration.Seconds,
+	// math.Ceil, named intermediate results) is as finite as that computation, which the relaxed encoding already
+	// guards with the side conditions of its operations; only genuinely free inputs need a bound.
+	// Scope of the guard: the function's own inputs (parameters and entry values of fields). Values produced along the
+	// path (names carrying '!': results havocked by a callee's contract or a loop) are still taken as finite - an
+	// assumption of the relaxed encoding that stays listed in DESIGN.md 0.9.
+	for _, f := range facts {
+		collectFPVars(f, func(n string) {
+			if strings.Contains(n, "!") {
+				out[n] = true
+			}
+		}, map[*Term]bool{})
+	}
+	for eq := range defFacts {
+		if len(eq.Args) == 2 && isV(eq.Args[0]) {
+			out[eq.Args[0].Name] = true
+		}
+	}
+	return out
+}
+
+func collectFPVars(t *Term, f func(string), seen map[*Term]bool) {
+	if seen[t] {
+		return
+	}
+	seen[t] = true
+	if t.Op == "var" && t.Sort.K == SFP {
+		f(t.Name)
+	}
+	for _, a := range t.Args {
+		collectFPVars(a, f, seen)
+	}
 }
